@@ -145,3 +145,245 @@ ENSURES(RET == 1 IMPLIES (GCM_STREAM_OK(in, inlen, out) && GCM_DATA_HASH_OK(ivle
 ENSURES(RET == 1 IMPLIES (G_x_calls == 1 && G_x_len == taglen && G_x_rp == (size_t)tag
 	&& (verif_gk < taglen IMPLIES tag[verif_gk] == (uint8_t)(G_e_out[1] ^ G_gh_out[GCM_D(ivlen)]))))
 ;
+
+/* =====================================================================================
+ * Streaming interface (src/sm4_gcm.c sm4_gcm_{en,de}crypt_{init,update,finish}); enabled by GCM_STREAM.
+ * The bytes a call passes on to GHASH and to the CTR stream are described as a STREAM observed
+ * at one ghost position G_sk (P-TRANSCRIPT): each replaced consumer appends `len` bytes and
+ * records the byte that falls on position G_sk.  Invariant of a well-formed context:
+ *   GCM_TAG_MIN <= taglen <= GCM_TAG_MAX, maclen <= taglen, enc_ctx.block_nbytes < 16.
+ * ===================================================================================== */
+#ifdef GCM_STREAM
+#ifdef VERIF_CBMC
+const uint8_t G_zero_byte = 0;
+size_t G_sk;                                                            /* ghost stream position */
+size_t G_gu_fed; uint8_t G_gu_byte; unsigned G_gu_calls; size_t G_gu_ctx;   /* bytes appended to GHASH */
+size_t G_cu_fed; uint8_t G_cu_byte; unsigned G_cu_calls; size_t G_cu_ctx;   /* bytes appended to the CTR stream */
+size_t G_cu_out0; size_t G_cu_out_next; int G_cu_chain_ok; size_t G_cu_written; unsigned G_cu_seq; unsigned G_gu_seq;
+unsigned G_gf_calls; uint8_t G_gf_out; size_t G_gf_ctx; unsigned G_gf_seq;     /* ghash_finish */
+unsigned G_cf_calls; size_t G_cf_out; size_t G_cf_len; size_t G_cf_ctx;        /* ctr finish */
+unsigned G_gi_calls; uint8_t G_gi_h; size_t G_gi_aad; size_t G_gi_aadlen; size_t G_gi_ctx;   /* ghash_init */
+unsigned G_ci_calls; size_t G_ci_key; size_t G_ci_ctx;                          /* ctr init */
+#define GCM_CTX_OK(c) ((c)->taglen >= GCM_TAG_MIN && (c)->taglen <= GCM_TAG_MAX && (c)->maclen <= (c)->taglen && (c)->enc_ctx.block_nbytes < 16)
+#define GCM_REPORTED(n) (16 * (((n) + 15) / 16))
+#endif
+
+void ghash_init(GHASH_CTX *ctx, const uint8_t h[16], const uint8_t *aad, size_t aadlen)
+REQUIRES(WR_OK(ctx, sizeof(GHASH_CTX)) && RD_OK(h, 16) && (aadlen == 0 || RD_OK(aad, aadlen)) && verif_gk < 16)
+ASSIGNS(OBJ_UPTO((uint8_t *)ctx, sizeof(GHASH_CTX)), G_gi_calls, G_gi_h, G_gi_aad, G_gi_aadlen, G_gi_ctx)
+ENSURES(G_gi_calls == OLD(G_gi_calls) + 1 && G_gi_h == h[verif_gk] && G_gi_aad == (size_t)aad && G_gi_aadlen == aadlen && G_gi_ctx == (size_t)ctx)
+;
+
+void ghash_update(GHASH_CTX *ctx, const uint8_t *c, size_t clen)
+REQUIRES(RW_OK(ctx, sizeof(GHASH_CTX)) && (clen == 0 || RD_OK(c, clen)))
+ASSIGNS(OBJ_UPTO((uint8_t *)ctx, sizeof(GHASH_CTX)), G_gu_fed, G_gu_byte, G_gu_calls, G_gu_ctx, G_gu_seq, G_seq)
+ENSURES(G_gu_fed == OLD(G_gu_fed) + clen && G_gu_calls == OLD(G_gu_calls) + 1 && G_gu_ctx == (size_t)ctx && G_seq == OLD(G_seq) + 1 && G_gu_seq == G_seq)
+ENSURES((G_sk >= OLD(G_gu_fed) && G_sk - OLD(G_gu_fed) < clen) ? G_gu_byte == c[G_sk - OLD(G_gu_fed)] : G_gu_byte == OLD(G_gu_byte))
+;
+
+void ghash_finish(GHASH_CTX *ctx, uint8_t out[16])
+REQUIRES(RW_OK(ctx, sizeof(GHASH_CTX)) && WR_OK(out, 16) && verif_gk < 16)
+ASSIGNS(OBJ_UPTO((uint8_t *)ctx, sizeof(GHASH_CTX)), OBJ_UPTO(out, 16), G_gf_calls, G_gf_out, G_gf_ctx, G_gf_seq, G_seq)
+ENSURES(G_gf_calls == OLD(G_gf_calls) + 1 && G_gf_out == out[verif_gk] && G_gf_ctx == (size_t)ctx && G_seq == OLD(G_seq) + 1 && G_gf_seq == G_seq)
+;
+
+int sm4_ctr32_encrypt_init(SM4_CTR_CTX *ctx, const uint8_t key[16], const uint8_t ctr[16])
+REQUIRES(ctx == NULL || WR_OK(ctx, sizeof(SM4_CTR_CTX)))
+REQUIRES(key == NULL || RD_OK(key, 16))
+REQUIRES(ctr == NULL || RD_OK(ctr, 16))
+ASSIGNS(ctx != NULL && key != NULL && ctr != NULL: OBJ_UPTO((uint8_t *)ctx, sizeof(SM4_CTR_CTX)); G_ci_calls, G_ci_key, G_ci_ctx)
+ENSURES(RET == ((ctx != NULL && key != NULL && ctr != NULL) ? 1 : -1))
+ENSURES(G_ci_calls == OLD(G_ci_calls) + 1 && G_ci_key == (size_t)key && G_ci_ctx == (size_t)ctx)
+ENSURES(RET == 1 IMPLIES ctx->block_nbytes == 0)
+;
+
+/* CTR stream: consumes inlen bytes, emits whole blocks: *outlen == 16*floor((buffered+inlen)/16) */
+int sm4_ctr32_encrypt_update(SM4_CTR_CTX *ctx, const uint8_t *in, size_t inlen, uint8_t *out, size_t *outlen)
+REQUIRES(RW_OK(ctx, sizeof(SM4_CTR_CTX)) && WR_OK(outlen, sizeof(size_t)) && inlen <= (size_t)1 << 40)
+REQUIRES(in != NULL && (inlen == 0 || RD_OK(in, inlen)))
+REQUIRES(out != NULL && ctx->block_nbytes < 16)
+REQUIRES(((ctx->block_nbytes + inlen) / 16) == 0 || WR_OK(out, ((ctx->block_nbytes + inlen) / 16) * 16))
+/* the emitted blocks must not overwrite input that has not been consumed: disjoint, or exactly in place with nothing buffered */
+REQUIRES(inlen == 0 || !__CPROVER_same_object(in, out) || (in == out && ctx->block_nbytes == 0)
+	|| __CPROVER_POINTER_OFFSET(out) + ((ctx->block_nbytes + inlen) / 16) * 16 <= __CPROVER_POINTER_OFFSET(in)
+	|| __CPROVER_POINTER_OFFSET(in) + inlen <= __CPROVER_POINTER_OFFSET(out))
+ASSIGNS(OBJ_UPTO((uint8_t *)ctx, sizeof(SM4_CTR_CTX)), OBJ_UPTO((uint8_t *)outlen, sizeof(size_t));
+#ifdef GCM_COARSE_OUT_FRAME
+	/* constant-size havoc of the whole output object (the caller's postcondition does not read the output bytes; WR_OK above stays exact) */
+	((ctx->block_nbytes + inlen) / 16) != 0: OBJ_WHOLE(out);
+#else
+	((ctx->block_nbytes + inlen) / 16) != 0: OBJ_UPTO(out, ((ctx->block_nbytes + inlen) / 16) * 16);
+#endif
+	G_cu_fed, G_cu_byte, G_cu_calls, G_cu_ctx, G_cu_out0, G_cu_out_next, G_cu_chain_ok, G_cu_written, G_cu_seq, G_seq)
+ENSURES(RET == 1)
+ENSURES(*outlen == ((OLD(ctx->block_nbytes) + inlen) / 16) * 16 && ctx->block_nbytes == (OLD(ctx->block_nbytes) + inlen) % 16)
+ENSURES(G_cu_fed == OLD(G_cu_fed) + inlen && G_cu_calls == OLD(G_cu_calls) + 1 && G_cu_ctx == (size_t)ctx && G_seq == OLD(G_seq) + 1 && G_cu_seq == G_seq)
+ENSURES((G_sk >= OLD(G_cu_fed) && G_sk - OLD(G_cu_fed) < inlen) ? G_cu_byte == OLD(*((G_sk >= G_cu_fed && G_sk - G_cu_fed < inlen) ? (in + (G_sk - G_cu_fed)) : &G_zero_byte)) : G_cu_byte == OLD(G_cu_byte))
+ENSURES(G_cu_out0 == (OLD(G_cu_calls) == 0 ? (size_t)out : OLD(G_cu_out0)))
+ENSURES(G_cu_chain_ok == ((OLD(G_cu_calls) == 0 || (OLD(G_cu_chain_ok) == 1 && (size_t)out == OLD(G_cu_out_next))) ? 1 : 0))
+ENSURES(G_cu_out_next == (size_t)out + *outlen && G_cu_written == OLD(G_cu_written) + *outlen)
+;
+
+int sm4_ctr32_encrypt_finish(SM4_CTR_CTX *ctx, uint8_t *out, size_t *outlen)
+REQUIRES(RW_OK(ctx, sizeof(SM4_CTR_CTX)) && WR_OK(outlen, sizeof(size_t)) && out != NULL && ctx->block_nbytes < 16)
+REQUIRES(ctx->block_nbytes == 0 || WR_OK(out, ctx->block_nbytes))
+ASSIGNS(OBJ_UPTO((uint8_t *)ctx, sizeof(SM4_CTR_CTX)), OBJ_UPTO((uint8_t *)outlen, sizeof(size_t));
+	ctx->block_nbytes != 0: OBJ_UPTO(out, ctx->block_nbytes); G_cf_calls, G_cf_out, G_cf_len, G_cf_ctx)
+ENSURES(RET == 1 && *outlen == OLD(ctx->block_nbytes) && *outlen < 16)
+ENSURES(G_cf_calls == OLD(G_cf_calls) + 1 && G_cf_out == (size_t)out && G_cf_len == *outlen && G_cf_ctx == (size_t)ctx)
+;
+
+#ifdef VERIF_CBMC
+/* S[j]: the j-th byte of (held-back bytes before the call) || (input of the call) */
+#define GCM_M0(c)        OLD((c)->maclen)
+#define GCM_TOTAL(c)     (OLD((c)->maclen) + inlen)
+#define GCM_FED(c)       (GCM_TOTAL(c) - (c)->taglen)          /* only meaningful when total > taglen */
+#define GCM_S(c, j)      ((j) < GCM_M0(c) ? G_mac0[(j) < 16 ? (j) : 0] : in[(j) - GCM_M0(c)])
+uint8_t G_mac0[16];   /* harness snapshot of ctx->mac before the call (the contract requires it to be exact) */
+#define GCM_STREAM_GHOSTS G_seq, G_gu_fed, G_gu_byte, G_gu_calls, G_gu_ctx, G_gu_seq, G_cu_fed, G_cu_byte, G_cu_calls, G_cu_ctx, \
+	G_cu_out0, G_cu_out_next, G_cu_chain_ok, G_cu_written, G_cu_seq
+#ifdef GCM_NO_CONTENT
+#define GCM_CONTENT(x) 1
+#else
+#define GCM_CONTENT(x) (x)
+#endif
+#define GCM_STREAM_ZERO (G_seq == 0 && G_gu_fed == 0 && G_gu_calls == 0 && G_cu_fed == 0 && G_cu_calls == 0 && G_cu_written == 0 && G_cu_chain_ok == 1)
+#endif
+
+int sm4_gcm_decrypt_update(SM4_GCM_CTX *ctx, const uint8_t *in, size_t inlen, uint8_t *out, size_t *outlen)
+REQUIRES(ctx == NULL || (RW_OK(ctx, sizeof(SM4_GCM_CTX)) && GCM_CTX_OK(ctx)))
+REQUIRES(in == NULL || inlen == 0 || RD_OK(in, inlen))
+REQUIRES(outlen == NULL || WR_OK(outlen, sizeof(size_t)))
+/* the caller provides what a query with out == NULL reports, and a buffer disjoint from the input */
+REQUIRES(out == NULL || inlen == 0 || (WR_OK(out, GCM_REPORTED(inlen)) && SEPARATE(in, out)))
+REQUIRES(ctx == NULL || (SEPARATE(ctx, in) && SEPARATE(ctx, out) && SEPARATE(ctx, outlen)))
+REQUIRES(SEPARATE(outlen, out) && SEPARATE(outlen, in))
+REQUIRES(GCM_STREAM_ZERO && G_sk < ((size_t)1 << 40) && verif_gk < 16)
+REQUIRES(ctx == NULL || (G_mac0[0] == ctx->mac[0] && G_mac0[1] == ctx->mac[1] && G_mac0[2] == ctx->mac[2] && G_mac0[3] == ctx->mac[3]
+	&& G_mac0[4] == ctx->mac[4] && G_mac0[5] == ctx->mac[5] && G_mac0[6] == ctx->mac[6] && G_mac0[7] == ctx->mac[7]
+	&& G_mac0[8] == ctx->mac[8] && G_mac0[9] == ctx->mac[9] && G_mac0[10] == ctx->mac[10] && G_mac0[11] == ctx->mac[11]
+	&& G_mac0[12] == ctx->mac[12] && G_mac0[13] == ctx->mac[13] && G_mac0[14] == ctx->mac[14] && G_mac0[15] == ctx->mac[15]))
+ASSIGNS(ctx != NULL: OBJ_UPTO((uint8_t *)ctx, sizeof(SM4_GCM_CTX)); outlen != NULL: OBJ_UPTO((uint8_t *)outlen, sizeof(size_t));
+#ifdef GCM_COARSE_OUT_FRAME
+	out != NULL && inlen != 0: OBJ_WHOLE(out); GCM_STREAM_GHOSTS)
+#else
+	out != NULL && inlen != 0: OBJ_UPTO(out, GCM_REPORTED(inlen)); GCM_STREAM_GHOSTS)
+#endif
+ENSURES(RET == 1 || RET == -1)
+ENSURES((ctx == NULL || in == NULL || outlen == NULL) IMPLIES RET == -1)
+/* size query */
+ENSURES((RET == 1 && out == NULL) IMPLIES (*outlen == GCM_REPORTED(inlen) && G_cu_calls == 0 && G_gu_calls == 0))
+/* the context stays well formed */
+ENSURES((RET == 1 && ctx != NULL) IMPLIES GCM_CTX_OK(ctx))
+ENSURES((RET == 1 && ctx != NULL) IMPLIES ctx->taglen == OLD(ctx->taglen))
+/* never more output than reported */
+ENSURES((RET == 1 && out != NULL) IMPLIES *outlen <= GCM_REPORTED(inlen))
+/* (A) everything is still a possible tag: held back, nothing released, *outlen says so */
+ENSURES((RET == 1 && out != NULL && GCM_TOTAL(ctx) <= ctx->taglen) IMPLIES (ctx->maclen == GCM_TOTAL(ctx) && G_gu_fed == 0 && G_cu_fed == 0 && *outlen == 0
+	&& GCM_CONTENT(verif_gk < ctx->maclen IMPLIES ctx->mac[verif_gk] == GCM_S(ctx, verif_gk))))
+/* (B) exactly total - taglen bytes are released, in stream order, to GHASH and to the CTR stream; the last taglen bytes are held back */
+ENSURES((RET == 1 && out != NULL && GCM_TOTAL(ctx) > ctx->taglen) IMPLIES (ctx->maclen == ctx->taglen
+	&& G_gu_fed == GCM_FED(ctx) && G_cu_fed == GCM_FED(ctx)
+	&& G_gu_ctx == (size_t)&ctx->mac_ctx && G_cu_ctx == (size_t)&ctx->enc_ctx
+	&& GCM_CONTENT(G_sk < GCM_FED(ctx) IMPLIES (G_gu_byte == GCM_S(ctx, G_sk) && G_cu_byte == GCM_S(ctx, G_sk)))
+	&& GCM_CONTENT(verif_gk < ctx->taglen IMPLIES ctx->mac[verif_gk] == GCM_S(ctx, GCM_FED(ctx) + verif_gk))
+	&& G_cu_out0 == (size_t)out && G_cu_chain_ok == 1 && *outlen == G_cu_written
+	&& *outlen == ((OLD(ctx->enc_ctx.block_nbytes) + GCM_FED(ctx)) / 16) * 16))
+;
+#endif
+
+#ifdef GCM_STREAM
+/* finish: success only when exactly taglen bytes are held back and they equal MSB_taglen(GHASH xor E_K(J0)) over ALL taglen bytes */
+int sm4_gcm_decrypt_finish(SM4_GCM_CTX *ctx, uint8_t *out, size_t *outlen)
+REQUIRES(ctx == NULL || (RW_OK(ctx, sizeof(SM4_GCM_CTX)) && ctx->taglen >= GCM_TAG_MIN && ctx->taglen <= GCM_TAG_MAX && ctx->enc_ctx.block_nbytes < 16))
+REQUIRES(outlen == NULL || WR_OK(outlen, sizeof(size_t)))
+/* the caller provides what a query with out == NULL reports: one block */
+REQUIRES(out == NULL || WR_OK(out, 16))
+REQUIRES(ctx == NULL || (SEPARATE(ctx, out) && SEPARATE(ctx, outlen)))
+REQUIRES(SEPARATE(outlen, out) && verif_gk < 16)
+REQUIRES(G_seq == 0 && G_gf_calls == 0 && G_cf_calls == 0 && G_mcmp_calls == 0 && G_x_calls == 0)
+ASSIGNS(ctx != NULL: OBJ_UPTO((uint8_t *)ctx, sizeof(SM4_GCM_CTX)); outlen != NULL: OBJ_UPTO((uint8_t *)outlen, sizeof(size_t)); out != NULL: OBJ_UPTO(out, 16);
+	G_seq, G_gf_calls, G_gf_out, G_gf_ctx, G_gf_seq, G_cf_calls, G_cf_out, G_cf_len, G_cf_ctx,
+	G_mcmp_last, G_mcmp_n, G_mcmp_a, G_mcmp_b, G_mcmp_calls, G_mcmp_ak, G_mcmp_bk, G_mcmp_seq, G_x_r, G_x_calls, G_x_len, G_x_rp)
+ENSURES(RET == 1 || RET == -1)
+ENSURES((ctx == NULL || outlen == NULL) IMPLIES RET == -1)
+ENSURES((RET == 1 && out == NULL) IMPLIES (*outlen == 16 && G_mcmp_calls == 0))
+ENSURES((RET == 1 && out != NULL) IMPLIES (OLD(ctx->maclen) == ctx->taglen && ctx->taglen == OLD(ctx->taglen)))
+ENSURES((RET == 1 && out != NULL) IMPLIES (G_gf_calls == 1 && G_gf_ctx == (size_t)&ctx->mac_ctx
+	&& G_mcmp_calls == 1 && G_mcmp_n == ctx->taglen && G_mcmp_last == 0
+	&& ((G_mcmp_b == (size_t)ctx->mac && (verif_gk < ctx->taglen IMPLIES G_mcmp_ak == (uint8_t)(G_gf_out ^ OLD(ctx->Y[verif_gk < 16 ? verif_gk : 0]))))
+	 || (G_mcmp_a == (size_t)ctx->mac && (verif_gk < ctx->taglen IMPLIES G_mcmp_bk == (uint8_t)(G_gf_out ^ OLD(ctx->Y[verif_gk < 16 ? verif_gk : 0])))))))
+/* the held-back bytes compared are the ones that were held back (not modified before the comparison) */
+ENSURES((RET == 1 && out != NULL && verif_gk < ctx->taglen) IMPLIES ((G_mcmp_b == (size_t)ctx->mac ? G_mcmp_bk : G_mcmp_ak) == OLD(ctx->mac[verif_gk < 16 ? verif_gk : 0])))
+ENSURES((RET == 1 && out != NULL) IMPLIES (G_cf_calls == 1 && G_cf_out == (size_t)out && *outlen == G_cf_len && *outlen < 16))
+/* completeness: a full, matching tag is accepted */
+ENSURES((ctx != NULL && outlen != NULL && out != NULL && OLD(ctx->maclen) == OLD(ctx->taglen)) IMPLIES (G_mcmp_calls == 1 && (RET == 1) == (G_mcmp_last == 0)))
+;
+
+int sm4_gcm_encrypt_update(SM4_GCM_CTX *ctx, const uint8_t *in, size_t inlen, uint8_t *out, size_t *outlen)
+REQUIRES(ctx == NULL || (RW_OK(ctx, sizeof(SM4_GCM_CTX)) && GCM_CTX_OK(ctx)))
+REQUIRES(in == NULL || inlen == 0 || RD_OK(in, inlen))
+REQUIRES(outlen == NULL || WR_OK(outlen, sizeof(size_t)))
+REQUIRES(out == NULL || inlen == 0 || WR_OK(out, GCM_REPORTED(inlen)))
+/* in place is allowed only when nothing is buffered (the emitted blocks then never run ahead of the input) */
+REQUIRES(out == NULL || in == NULL || inlen == 0 || SEPARATE(in, out) || (in == out && ctx != NULL && ctx->enc_ctx.block_nbytes == 0))
+REQUIRES(ctx == NULL || (SEPARATE(ctx, in) && SEPARATE(ctx, out) && SEPARATE(ctx, outlen)))
+REQUIRES(SEPARATE(outlen, out) && SEPARATE(outlen, in))
+REQUIRES(GCM_STREAM_ZERO && G_sk < ((size_t)1 << 40))
+ASSIGNS(ctx != NULL: OBJ_UPTO((uint8_t *)ctx, sizeof(SM4_GCM_CTX)); outlen != NULL: OBJ_UPTO((uint8_t *)outlen, sizeof(size_t));
+	out != NULL && inlen != 0: OBJ_WHOLE(out); GCM_STREAM_GHOSTS)
+ENSURES(RET == 1 || RET == -1)
+ENSURES((ctx == NULL || in == NULL || outlen == NULL) IMPLIES RET == -1)
+ENSURES((RET == 1 && out == NULL) IMPLIES (*outlen == GCM_REPORTED(inlen) && G_cu_calls == 0 && G_gu_calls == 0))
+ENSURES((RET == 1 && ctx != NULL) IMPLIES (GCM_CTX_OK(ctx) && ctx->taglen == OLD(ctx->taglen) && ctx->maclen == OLD(ctx->maclen)))
+/* the plaintext goes to the CTR stream, the CIPHERTEXT that was written (out, *outlen bytes) goes to GHASH, in that order */
+ENSURES((RET == 1 && out != NULL) IMPLIES (G_cu_calls == 1 && G_cu_fed == inlen && G_cu_ctx == (size_t)&ctx->enc_ctx && G_cu_out0 == (size_t)out
+	&& *outlen == ((OLD(ctx->enc_ctx.block_nbytes) + inlen) / 16) * 16 && *outlen <= GCM_REPORTED(inlen)
+	&& G_gu_calls == 1 && G_gu_fed == *outlen && G_gu_ctx == (size_t)&ctx->mac_ctx && G_gu_seq > G_cu_seq
+	&& (G_sk < *outlen IMPLIES G_gu_byte == out[G_sk])))
+;
+
+int sm4_gcm_encrypt_finish(SM4_GCM_CTX *ctx, uint8_t *out, size_t *outlen)
+REQUIRES(ctx == NULL || (RW_OK(ctx, sizeof(SM4_GCM_CTX)) && GCM_CTX_OK(ctx)))
+REQUIRES(outlen == NULL || WR_OK(outlen, sizeof(size_t)))
+/* the caller provides what a query with out == NULL reports: two blocks */
+REQUIRES(out == NULL || WR_OK(out, 32))
+REQUIRES(ctx == NULL || (SEPARATE(ctx, out) && SEPARATE(ctx, outlen)))
+REQUIRES(SEPARATE(outlen, out) && verif_gk < 16 && G_sk < 16)
+REQUIRES(GCM_STREAM_ZERO && G_gf_calls == 0 && G_cf_calls == 0 && G_x_calls == 0)
+ASSIGNS(ctx != NULL: OBJ_UPTO((uint8_t *)ctx, sizeof(SM4_GCM_CTX)); outlen != NULL: OBJ_UPTO((uint8_t *)outlen, sizeof(size_t)); out != NULL: OBJ_UPTO(out, 32);
+	GCM_STREAM_GHOSTS, G_gf_calls, G_gf_out, G_gf_ctx, G_gf_seq, G_cf_calls, G_cf_out, G_cf_len, G_cf_ctx, G_x_r, G_x_calls, G_x_len, G_x_rp)
+ENSURES(RET == 1 || RET == -1)
+ENSURES((ctx == NULL || outlen == NULL) IMPLIES RET == -1)
+ENSURES((RET == 1 && out == NULL) IMPLIES *outlen == 32)
+/* last partial block to `out`, hashed, then tag = MSB_taglen(GHASH xor E_K(J0)) appended */
+ENSURES((RET == 1 && out != NULL) IMPLIES (G_cf_calls == 1 && G_cf_out == (size_t)out && G_cf_len < 16
+	&& G_gu_calls == 1 && G_gu_fed == G_cf_len && (G_sk < G_cf_len IMPLIES G_gu_byte == out[G_sk])
+	&& G_gf_calls == 1 && G_gf_seq > G_gu_seq
+	&& *outlen == G_cf_len + ctx->taglen && *outlen <= 32
+	&& (verif_gk < ctx->taglen IMPLIES out[G_cf_len + verif_gk] == (uint8_t)(G_gf_out ^ ctx->Y[verif_gk]))))
+;
+
+/* init: H = E_K(0^128); GHASH keyed with H over the AAD; J0 as in the one-shot functions; ctx->Y = E_K(J0); counter = inc32(J0) */
+int sm4_gcm_encrypt_init(SM4_GCM_CTX *ctx, const uint8_t *key, size_t keylen, const uint8_t *iv, size_t ivlen, const uint8_t *aad, size_t aadlen, size_t taglen)
+REQUIRES(ctx == NULL || WR_OK(ctx, sizeof(SM4_GCM_CTX)))
+REQUIRES(key == NULL || keylen == 0 || RD_OK(key, keylen))
+REQUIRES(iv == NULL || ivlen == 0 || RD_OK(iv, ivlen))
+REQUIRES(aad == NULL || aadlen == 0 || RD_OK(aad, aadlen))
+REQUIRES(verif_gk < 16 && G_seq == 0 && G_e_calls == 0 && G_gh_calls == 0 && G_gi_calls == 0 && G_ci_calls == 0)
+ASSIGNS(ctx != NULL: OBJ_UPTO((uint8_t *)ctx, sizeof(SM4_GCM_CTX)); G_seq, G_e_calls, G_e_in, G_e_out, G_e_in_w3, G_e_key,
+	G_gh_calls, G_gh_h, G_gh_aad, G_gh_aadlen, G_gh_c, G_gh_clen, G_gh_out, G_gh_out_w3, G_gh_seq,
+	G_gi_calls, G_gi_h, G_gi_aad, G_gi_aadlen, G_gi_ctx, G_ci_calls, G_ci_key, G_ci_ctx)
+ENSURES(RET == 1 || RET == -1)
+ENSURES(RET == 1 IMPLIES (ctx != NULL && key != NULL && iv != NULL && keylen == 16 && ivlen >= GCM_IV_MIN && ivlen <= GCM_IV_MAX && taglen >= GCM_TAG_MIN && taglen <= GCM_TAG_MAX))
+ENSURES((ctx != NULL && key != NULL && iv != NULL && (aad != NULL || aadlen == 0) && keylen == 16 && ivlen >= GCM_IV_MIN && ivlen <= GCM_IV_MAX && taglen >= GCM_TAG_MIN && taglen <= GCM_TAG_MAX) IMPLIES RET == 1)
+ENSURES(RET == 1 IMPLIES (ctx->taglen == taglen && ctx->maclen == 0 && ctx->encedlen == 0 && ctx->enc_ctx.block_nbytes == 0))
+ENSURES(RET == 1 IMPLIES (G_ci_calls == 1 && G_ci_key == (size_t)key && G_ci_ctx == (size_t)&ctx->enc_ctx
+	&& G_e_calls == 2 && G_e_key[0] == (size_t)&ctx->enc_ctx.sm4_key && G_e_key[1] == (size_t)&ctx->enc_ctx.sm4_key && G_e_in[0] == 0
+	&& G_gi_calls == 1 && G_gi_h == G_e_out[0] && G_gi_aad == (size_t)aad && G_gi_aadlen == aadlen && G_gi_ctx == (size_t)&ctx->mac_ctx))
+ENSURES(RET == 1 IMPLIES (ivlen == 12
+	? (G_gh_calls == 0 && G_e_in[1] == (verif_gk < 12 ? iv[verif_gk < 12 ? verif_gk : 0] : (verif_gk == 15 ? 1 : 0)) && G_e_in_w3[1] == 1)
+	: (G_gh_calls == 1 && G_gh_h[0] == G_e_out[0] && G_gh_aadlen[0] == 0 && G_gh_c[0] == (size_t)iv && G_gh_clen[0] == ivlen && G_e_in[1] == G_gh_out[0] && G_e_in_w3[1] == G_gh_out_w3[0])))
+ENSURES(RET == 1 IMPLIES (ctx->Y[verif_gk] == G_e_out[1] && (verif_gk < 12 IMPLIES ctx->enc_ctx.ctr[verif_gk] == G_e_in[1]) && BE32P(ctx->enc_ctx.ctr + 12) == (uint32_t)(G_e_in_w3[1] + 1u)))
+;
+#endif
